@@ -3,7 +3,7 @@
 From Coq Require Import ZArith List Bool String Lia.
 From Droop Require Import Model.KernelBase Model.Str Model.Arith Model.State Model.Prims Model.Prelude Model.Profile Model.ProfileSpec
   Model.Election Model.EndToEnd Proofs.Zlike Proofs.Gregory Proofs.Conserve Proofs.Forward Proofs.ParserLemmas Proofs.ConserveCount
-  Proofs.MeekRun Proofs.MeekKfRun Proofs.MeekPrfRun Proofs.MeekCount.
+  Proofs.MeekRun Proofs.MeekKfRun Proofs.MeekPrfRun Proofs.MeekCount Proofs.Terminate Proofs.TerminateMeek.
 Import ListNotations.
 Open Scope Z_scope.
 
@@ -130,5 +130,25 @@ Theorem accepted_meek_prf : cf_method cfg = MMeek ->
 Proof.
   intros Hm text p fuel s k Hp He Hk.
   exact (count_meek_prf A S ZL cfg Hm _ fuel s k (proj1 (accepted_file_is_wf text p Hp)) He Hk).
+Qed.
+
+(* termination, for every accepted file: the fuel bound is in terms of the declared number of candidates *)
+Lemma cands_len (p : Profile.profile) : List.length (pr_cands (to_count_profile p)) = List.length (cids_upto (p_nCand p)).
+Proof. unfold to_count_profile. cbn [pr_cands]. apply map_length. Qed.
+
+Theorem accepted_gregory_terminates : forall r text p fuel, term_rule cfg r -> parse_file text = Ok p ->
+  (2 * List.length (cids_upto (p_nCand p)) < Pos.to_nat fuel)%nat ->
+  exists s k, exec (@crashed A) fuel (count_cmd A cfg r) (init_state A cfg (to_count_profile p)) = Some (s, k).
+Proof.
+  intros r text p fuel Hr Hp Hf. apply count_terminates; [exact Hr| |rewrite cands_len; exact Hf].
+  rewrite cands_ids. apply nodup_cids_upto.
+Qed.
+
+Theorem accepted_meek_terminates : exact A = false -> forall text p fuel, parse_file text = Ok p ->
+  (Z.to_nat (cf_nballots cfg * S) < Pos.to_nat fuel)%nat -> (List.length (cids_upto (p_nCand p)) < Pos.to_nat fuel)%nat ->
+  exists s k, exec (@crashed A) fuel (count_cmd A cfg RMeek) (init_state A cfg (to_count_profile p)) = Some (s, k).
+Proof.
+  intros Hex text p fuel Hp Hf1 Hf2. apply (meek_count_terminates A S ZL cfg Hex); [|exact Hf1|rewrite cands_len; exact Hf2].
+  rewrite cands_ids. apply nodup_cids_upto.
 Qed.
 End Accepted.
